@@ -22,6 +22,7 @@ ENGINES = [
     {"name": "Chain.tla", "path": "/verif/spec/Chain.tla", "serves_properties": ["C15", "C19", "C13", "C14"], "kind_free_text": "chain driver state machine over option records; TraceChain.tla validates recorded event streams"},
     {"name": "Concentration.tla", "path": "/verif/spec/Concentration.tla", "serves_properties": ["C13"], "kind_free_text": "Escobar-West parameter wiring as exact rationals; ConcentrationKN.tla for (K, n)"},
     {"name": "Cache.tla", "path": "/verif/spec/Cache.tla", "serves_properties": ["C14"], "kind_free_text": "memo tables with real key functions under arbitrary histories"},
+    {"name": "Summaries*.tla", "path": "/verif/spec/SummariesMap.tla", "serves_properties": ["C11", "C12", "C16"], "kind_free_text": "SummariesMap (MAP / topology report scan), SummariesTable (result table rows), SummariesCons / SummariesCons4 (consensus)"},
     {"name": "Forests.tla", "path": "/verif/spec/Forests.tla", "serves_properties": ["C01", "C03", "C04", "C06", "C07", "C08", "C09", "C11", "C12", "C16"], "kind_free_text": "canonical forest universe"},
 ]
 
@@ -80,6 +81,46 @@ CHECKS = {
                 "outlier-prior / cluster-size settings, and must equal the record evaluated with lgamma/log (1e-9); ==/hash must agree with "
                 "equality of abstractions.",
         "note": "Trusted: TLC, lgamma/log evaluation of the record by the harness, integer likelihood tables. p=1 excluded.",
+    },
+    "C11": {
+        "engine": "SummariesMap.tla",
+        "category": "model_checking",
+        "technique": "TLC runs the implementation-shaped scan over every small trace and proves the definitions, printing admissible outputs; each trace replayed through the real map / topology-report commands on real trace files",
+        "design_ref": "DESIGN.md 5 C11",
+        "text": "SummariesMap.tla enumerates every trace of <=2 (thorough: 3) chains in every completion order with <=2 entries over all forests on "
+                "2 data points and integer score multipliers (ties), runs the implementation-shaped single scan (strict arg-max; dictionary "
+                "keyed by tree identity) one entry per step and proves MapCorrect / TopoCorrect / CountsSum; it prints the admissible MAP trees "
+                "(both modes) and report rows with all attaining pointers. 1 000 sampled (thorough: all ~14 k) traces are written as real "
+                "gzip-pickle traces (real tree dicts incl. relabelled copies, chains in the trace's completion order) and run through "
+                "write_map_results (both modes) and write_topology_report (archive, top_trees 1/2/all); outputs are parsed back (table + "
+                "Newick -> clades) and compared.",
+        "note": "Trusted: TLC, the output parser. Universe bounded to forests on 2 points; row identity taken through the chain/entry pointer.",
+    },
+    "C12": {
+        "engine": "SummariesTable.tla",
+        "category": "model_checking",
+        "technique": "TLC enumerates forests x clusterings x samples and prints the admissible table rows and clone parent relation; real commands' outputs parsed and compared",
+        "design_ref": "DESIGN.md 5 C12",
+        "text": "SummariesTable.tla gives, for every forest on <=3 (thorough: 4) points with any outlier subset (incl. all-outlier), cluster sizes "
+                "1-3 and 1-2 samples, the admissible table (one row per mutation and sample, cluster members share the owning clone or -1) and the "
+                "clone parent relation. get_clone_table is run on every such forest and the map, consensus and topology-report commands on real "
+                "single-topology trace files, unclustered and clustered with integer cluster ids: they must complete, rows must be exactly "
+                "TLC's, the Newick tree must have TLC's parent relation, CCF / prevalence columns must be the clone's values within [0,1], -1 for "
+                "outliers; trees with clones that own nothing (consensus-built) are covered too.",
+        "note": "Trusted: TLC, the output parser. CCF values are compared with the MAP function of the same tree (its optimality is C10).",
+    },
+    "C16": {
+        "engine": "SummariesCons.tla",
+        "category": "model_checking",
+        "technique": "TLC computes exact rational clade supports, the majority family (laminar) and the node-identity collision predicate for every small sample; real consensus code and command compared",
+        "design_ref": "DESIGN.md 5 C16",
+        "text": "SummariesCons.tla enumerates every sample of <=3 trees over all forests on 3 points (counts), <=2 trees with score multipliers "
+                "(weighted) and with outliers, for thresholds 1/2, 2/3, 9/10, 1: exact support, Cons = clades strictly above the threshold, "
+                "LaminarInv, NoCollision, and flags instances whose support equals the threshold (not judged). SummariesCons4.tla refutes the "
+                "own-mutations-only node identity on 4 points and (thorough) proves laminarity / no collision for all 14 M triples. "
+                "get_consensus_tree + get_tree_from_consensus_graph are run on 6 000 sampled (thorough: all ~24 k) instances and "
+                "write_consensus_results on real trace files for a sample: result well-formed, clade set exactly Cons, uncovered data = -1.",
+        "note": "Trusted: TLC rationals, projection, output parser. 3-point universe exhaustive; hand-picked 4-point samples with empty clones.",
     },
     "C13": {
         "engine": "Concentration.tla",
